@@ -142,6 +142,14 @@ impl<I: Index> SimpleTermIndex<I> {
     }
 }
 
+#[cfg(feature = "verif_hooks")]
+impl<I: Index> SimpleTermIndex<I> {
+    /// Verification hook: read-only views of the two internal tables (term -> index, index -> term).
+    pub fn verif_raw(&self) -> (&HashMap<SimpleTerm<'static>, I>, &[SimpleTerm<'static>]) {
+        (&self.t2i, &self.i2t)
+    }
+}
+
 impl<I: Index> TermIndex for SimpleTermIndex<I> {
     type Term = SimpleTerm<'static>;
     type Index = I;
